@@ -21,7 +21,11 @@ L1a == L0 \cup {RDyn(a, d) : a \in L0, d \in Deltas} \cup {RGen(a, x) : a \in L0
           \cup {RInst(a, d) : a \in L0, d \in InstDeltas}
 \* plugs that make modus ponens applicable: phi0 := the conclusion of an already enumerated expression
 D1 == {<< <<0, Expand(Conc(b).c)>> >> : b \in {r \in L1a : Conc(r).run}}
-L1 == L1a \cup {RDyn(a, d) : a \in {R0("prop1"), R0("prop2")}, d \in D1}
+\* an instantiation of an instantiation, both binding the same metavariables (the inner plugs mention what the outer one binds)
+NestDeltas == {<< <<0, EV(0)>>, <<1, EV(1)>> >>, << <<1, CMV(0)>>, <<0, CMV(1)>> >>, << <<0, Imp(CMV(1), CMV(0))>> >>, << <<1, EV(0)>> >>}
+L1n == {RDyn(a, d) : a \in {r \in L1a : r.k \in {"dyn", "inst"} /\ r.a \in {R0("prop1"), R0("prop2")} /\ Len(r.d) >= 1}, d \in NestDeltas}
+        \cup {RInst(RDyn(R0("prop1"), << <<0, CMV(1)>>, <<1, CMV(0)>> >>), d) : d \in NestDeltas}
+L1 == L1a \cup L1n \cup {RDyn(a, d) : a \in {R0("prop1"), R0("prop2")}, d \in D1}
 \* constant-level definitions are evaluated once by TLC: the table saves recomputing sub-conclusions
 ConcTab == [r \in L1 |-> LET c == Conc(r) IN [c |-> c, e |-> Expand(c.c)]]
 L1imp == {r \in L1 : ConcTab[r].e.t = "imp"}
